@@ -1159,6 +1159,42 @@ impl<R> Reader<R> {
     }
 }
 
+/// Verification hooks (off in every normal build): run the private event
+/// constructors of the parser state on bytes as the scanners hand them over.
+#[cfg(any(kani, quick_xml_verif))]
+impl<R> Reader<R> {
+    /// `kind`: 0 = CData, 1 = Comment, 2 = DocType(0)
+    #[doc(hidden)]
+    pub fn verif_emit_bang<'b>(&mut self, kind: u8, buf: &'b [u8]) -> Result<Event<'b>, Error> {
+        let bang_type = match kind {
+            0 => BangType::CData,
+            1 => BangType::Comment,
+            _ => BangType::DocType(0),
+        };
+        self.state.emit_bang(bang_type, buf)
+    }
+
+    #[doc(hidden)]
+    pub fn verif_emit_question_mark<'b>(&mut self, buf: &'b [u8]) -> Result<Event<'b>, Error> {
+        self.state.emit_question_mark(buf)
+    }
+
+    #[doc(hidden)]
+    pub fn verif_emit_end<'b>(&mut self, buf: &'b [u8]) -> Result<Event<'b>, Error> {
+        self.state.emit_end(buf)
+    }
+
+    #[doc(hidden)]
+    pub fn verif_emit_start<'b>(&mut self, buf: &'b [u8]) -> Event<'b> {
+        self.state.emit_start(buf)
+    }
+
+    #[doc(hidden)]
+    pub fn verif_emit_text<'b>(&mut self, buf: &'b [u8]) -> Event<'b> {
+        Event::Text(self.state.emit_text(buf))
+    }
+}
+
 /// Verification hook: runs the private `BangType::parse`.
 /// `kind`: 0 = CData, 1 = Comment, 2 = DocType(`balance`).
 /// Returns `(length of the consumed slice, bytes used from chunk, balance after)`
